@@ -34,6 +34,16 @@ def run(tier, replay=None):
         out.add_tlc(r)
     hc = [{"id": i + 1, "mode": "runs", "text": t, "repeat": R} for i, t in enumerate(texts)]
     hc.append({"id": len(hc) + 1, "mode": "runs", "files": MULTI, "base": "main.s", "repeat": R})
+    # every cutting of the order-sensitive programs into two files (a segment of <= 4 lines moved into inc.s)
+    cut_inputs = []
+    for prog in corpus.ORDER_PROGRAMS + corpus.MULTIFILE_ORDER + [corpus.VIOLATING]:
+        ls = prog.rstrip("\n").split("\n")
+        for a in range(1, len(ls)):
+            for b in range(a, min(a + 4, len(ls))):
+                if (a + b) % (1 if tier == "thorough" else 3) == 0:
+                    files = {"main.s": "\n".join(ls[:a] + ['.include "inc.s"'] + ls[b + 1:]) + "\n", "inc.s": "\n".join(ls[a:b + 1]) + "\n"}
+                    cut_inputs.append(files)
+                    hc.append({"id": len(hc) + 1, "mode": "runs", "files": files, "base": "main.s", "repeat": R})
     tp, evs = run_harness(rvh, hc, wd, "runs", timeout_ms=60000)
     evs = [e if e["ev"] == "runs" else {"ev": "skip", "id": e["id"]} for e in evs]
     # separate processes, every output mode
@@ -60,7 +70,7 @@ def run(tier, replay=None):
                 ncli += P
                 evs.append({"ev": "cli", "id": len(evs) + 1, "mode": " ".join(m), "outs": outs,
                             "text": t if t is not None else json.dumps(MULTI)})
-    alltexts = texts + [json.dumps(MULTI)] + [e["text"] for e in evs if e["ev"] == "cli"]
+    alltexts = texts + [json.dumps(MULTI)] + [json.dumps(f) for f in cut_inputs] + [e["text"] for e in evs if e["ev"] == "cli"]
     for e in evs:
         e.pop("text", None)
     v, ress = validate_chunks("Trace_Runs", evs, wd, "runs.chunk", chunk=2000, heap="8g")
@@ -78,7 +88,7 @@ def run(tier, replay=None):
         "temporary directory names are masked in CLI output",
     ]
     return out.finish(extra_cov={
-        "programs": len(texts) + 1, "in_process_runs_per_program": R, "cli_runs": ncli, "cli_programs": len(cli_texts) + 1,
+        "programs": len(texts) + 1 + len(cut_inputs), "two_file_cuttings": len(cut_inputs), "in_process_runs_per_program": R, "cli_runs": ncli, "cli_programs": len(cli_texts) + 1,
         "modes": [" ".join(m) for m in modes], "exhaustive": False,
         "evaluations": (len(texts) + 1) * R + ncli, "distinct_nontrivial": len(texts) + 1,
         "rule": "programs from Gen_Values / Gen_Flow (tlc -simulate; shared code, several labels per entry, several returns), the corpus, order-sensitive hand-written programs and a 3-file include program; each linted R times in one process (RVParser::run) and P times per output mode in separate rva processes",
